@@ -534,10 +534,10 @@ pub fn render<F: Function + RenderHints>(
                     let o = y * width + x;
                     if out[index].depth >= image[o].depth {
                         // Clamp voxels to the image depth
-                        let d = render_config.image_size.depth() - 1;
+                        let d = render_config.image_size.depth();
                         if out[index].depth >= d {
                             image[o] = GeometryPixel {
-                                depth: d + 1,
+                                depth: d,
                                 normal: [0.0, 0.0, 1.0],
                             };
                         } else {
